@@ -22,7 +22,7 @@ FUNCTIONS = [
     "magpylib._src.utility:check_static_sensor_orient",
 ]
 BOUNDS = [
-    "1-2 sensors, pixel layouts from {None,(3,),(2,3),(1,2,3),(2,1,3)}, sensor path lengths {1,2,3}, 1-2 sources with path lengths {1,2}",
+    "1-3 sensors (thorough: 4), pixel layouts from {None,(3,),(2,3),(1,2,3),(2,1,3)}, sensor path lengths {1,2,3}, 1-2 sources with path lengths {1,2}",
     "pixel_agg in {None, mean, sum, min, max}; all real poses, pixel offsets, unit quaternions",
 ]
 CUTS = ["local field functions uninterpreted; scipy Rotation replaced by SymRot (unit-quaternion model)"]
@@ -42,9 +42,12 @@ SCENES = {
     "agg-sum-same": ({"sources": [cu("a", 2)], "sensors": [se(1, (1, 2, 3), "static", "left"), se(1, (2, 1, 3), "identity")]}, "sum"),
     "agg-min-mixed": ({"sources": [cu("a", 1)], "sensors": [se(1, (2, 3), "identity"), se(1, (3,), "identity")]}, "min"),
     "agg-max-same": ({"sources": [cu("a", 1)], "sensors": [se(1, (2, 3), "identity", "left")]}, "max"),
+    # equal pixel shapes separated by a different one (A, B, A): the aggregate of sensor k must stay at index k
+    "agg-sum-interleaved": ({"sources": [cu("a", 1)], "sensors": [se(1, (2, 3), "identity"), se(1, (3,), "identity"), se(1, (2, 3), "static", "left")]}, "sum"),
 }
 THOROUGH_SCENES = {
     "rot-3-pixels": ({"sources": [cu("a", 3), cu("b", 1)], "sensors": [se(3, (1, 2, 3), "sym"), se(2, (1, 2, 3), "sym", "left")]}, None),
+    "agg-max-interleaved-4": ({"sources": [cu("a", 2)], "sensors": [se(1, (3,), "identity"), se(2, (2, 3), "sym"), se(1, (3,), "static"), se(1, (2, 3), "identity", "left")]}, "max"),
     "agg-mean-rot-mixed": ({"sources": [cu("a", 2)], "sensors": [se(2, (2, 3), "sym"), se(1, (3,), "sym", "left")]}, "mean"),
 }
 
